@@ -156,6 +156,7 @@ class SimPool:
             w.proc.scheduler = None
             if sched.switches:
                 w.res.fault('pool_context_switches', sched.switches)
+            w.res.info.setdefault('interleavings', []).append(kernel.sha([n, self.processes, sched.trace]))
         return results
 
 
